@@ -100,6 +100,9 @@ func (x *FnExec) execInstr(b *ssa.BasicBlock, in ssa.Instruction, st *State) boo
 		x.store(st, addr, el, x.zero(el))
 		x.vals[in] = IntV(addr)
 		x.nonNil[addr] = true
+		if !in.Heap {
+			x.locals = append(x.locals, localAlloc{in, addr, el})
+		}
 	case *ssa.Store:
 		addr := x.value(in.Addr)
 		x.derefCheck(st, addr.T, "store")
@@ -879,6 +882,16 @@ func (x *FnExec) frameObligation(name string, reach Term, before, after map[stri
 				}
 			}
 		case *CCall:
+			if m.Fn == "ghost" {
+				if id, ok := m.Args[0].(*CIdent); ok {
+					idx := "0"
+					if len(m.Args) > 1 {
+						idx = env.scalar(env.Eval(m.Args[1]), "ghost index")
+					}
+					locs = append(locs, loc{key: "ghost:" + id.Name, addr: idx, n: 1})
+					continue
+				}
+			}
 			if m.Fn == "heap" {
 				if s, ok := m.Args[0].(*CStr); ok {
 					locs = append(locs, loc{key: s.V, all: true})
@@ -945,6 +958,9 @@ func (x *FnExec) frameObligation(name string, reach Term, before, after map[stri
 		}
 		// skolemised: for the arbitrary pre-existing address sk outside the modifies set
 		cond := And(Ge(sk, "0"), Lt(sk, allocBound), Not(Or(ex...)))
+		if strings.HasPrefix(k, "ghost:") {
+			cond = Not(Or(ex...)) // abstract state is not memory: every index counts
+		}
 		goals = append(goals, Implies(cond, Eq(Sel(a, sk), Sel(b, sk))))
 	}
 	if len(goals) == 0 {
